@@ -453,11 +453,11 @@ pub fn run(run: &Run) {
     run.assume("membership after an add is read back from the table (bucket-full and gate refusals are the implementation's), then constrained: nothing lost, nothing foreign, acknowledged ids present, no duplicate, never the local id");
     run.set_rule("engine", "history of join_network/add_node/handle_node_failure/evict_node over ids drawn by bucket (0–4, 250–255, mid, any; the local id; repeats of earlier ids), then find_nodes / FindNode / FindValue queries with counts 0..=64, usize::MAX; non-trivial = ≥2 populated buckets and a query whose bucket is not the most populated one, or a repeated/self id in the history");
     let sh = shards_for(run.tier);
-    run.prop("engine", run.tier.pick(3000, 60_000), sh, case(40), run_case);
-    run.prop("engine", run.tier.pick(150, 4000), sh, case(300), run_case);
+    run.prop("engine", run.tier.pick(90000, 900000), sh, case(40), run_case);
+    run.prop("engine", run.tier.pick(4500, 60000), sh, case(300), run_case);
     run.set_rule("reply", "a real manager with 1..14 connected peers on the in-memory network answers a FIND_NODE / FIND_VALUE / GET frame from one of them: ≤8 names, each resolving to a distinct known peer, ascending distance, equal to the top-8 of everything it knows (requester kept, filtered after, or filtered before truncation); non-trivial = ≥3 peers known");
     let rc = (any::<u8>(), any::<u8>(), any::<u8>(), 0u8..3, any::<u8>(), prop::collection::vec(any::<u8>(), 0..3)).prop_map(|(peers, id_seed, key, op, requester, disconnect)| ReplyCase { peers, id_seed, key, op, requester, disconnect });
-    run.prop("reply", run.tier.pick(400, 6000), sh, rc, run_reply);
+    run.prop("reply", run.tier.pick(12000, 90000), sh, rc, run_reply);
 }
 
 pub fn replay(run: &Run, sub: &str, case: &Value) -> Option<bool> {
